@@ -174,7 +174,12 @@ def check_receive(arrivals, originals, obs):
         copies = {key: 0 for key in originals}
         for step, (key, idx, payload, peer) in enumerate(arrivals):
             before = node.queue()
-            res = node.recv(payload, peer)
+            try:
+                res = node.recv(payload, peer)
+            except Exception as err:  # pylint: disable=broad-except
+                # (in the daemon this call is made from the socket watch: the exception would leave the event loop callback)
+                problems.append('arrival %d: the receive path raised %s: %s' % (step, type(err).__name__, str(err)[:80]))
+                break
             if node.sim.world.callback_errors:
                 err = node.sim.world.callback_errors[0]
                 problems.append('arrival %d: callback %s raised %s: %s' % (step, err.source, err.exc_type, str(err.exc)[:80]))
@@ -358,6 +363,19 @@ def run_case(case):
                     arrivals = [(key, idx, payloads[idx], PEER_MAC) for idx in perm]
                     note(check_receive(arrivals, {key: (bundle, nseg)}, obs), 'oracle-segments', dict(n=nseg, order=list(perm), hint=with_hint),
                          'oracle|%d|%s|%s' % (nseg, perm, with_hint))
+        # another sender may cut a bundle so that a piece is empty (an exact multiple of its segment size, then an empty end segment)
+        for sizes in ([20, 0], [20, 20, 0], [15, 0, 15], [0, 30]):
+            bundle = bundle_of(sum(sizes), 7 + len(sizes))
+            payloads, off = [], 0
+            for idx, size in enumerate(sizes):
+                payloads.append(bw.encode_msg(dict(type=bw.T_END if idx == len(sizes) - 1 else bw.T_SEG, hints=[],
+                                                   body=bw.seg_body(11, idx, bundle[off:off + size]))))
+                off += size
+            key = ('e', tuple(sizes))
+            for perm in itertools.permutations(range(len(sizes))):
+                arrivals = [(key, idx, payloads[idx], PEER_MAC) for idx in perm]
+                note(check_receive(arrivals, {key: (bundle, len(sizes))}, obs), 'oracle-segments-with-empty-piece', dict(sizes=sizes, order=list(perm)),
+                     'oracle-empty|%s|%s' % (sizes, perm))
     elif kind == 'perm':
         mtu = rng.choice([40, 50, 64])
         while True:
